@@ -1,10 +1,44 @@
 use crate::{Failure, Rng};
 use temporal_rs::provider::TimeZoneProvider;
+use temporal_rs::iso::IsoDateTime;
+use crate::oracle;
 use temporal_rs::tzdb::FsTzdbProvider;
 use std::panic::{catch_unwind, AssertUnwindSafe};
 
-const ZONES: [&str; 12] = ["America/New_York", "Europe/London", "Australia/Sydney", "Asia/Kolkata", "Pacific/Apia", "America/Sao_Paulo", "Africa/Casablanca",
-    "Asia/Tehran", "America/St_Johns", "Pacific/Chatham", "Europe/Moscow", "UTC"];
+const ZONES: [&str; 22] = ["America/New_York", "Europe/London", "Australia/Sydney", "Asia/Kolkata", "Pacific/Apia", "America/Sao_Paulo", "Africa/Casablanca",
+    "Asia/Tehran", "America/St_Johns", "Pacific/Chatham", "Europe/Moscow", "UTC", "Africa/Monrovia", "America/Nuuk", "Antarctica/Troll", "Australia/Lord_Howe", "Europe/Dublin",
+    "Asia/Kathmandu", "America/Caracas", "Pacific/Kiritimati", "America/Toronto", "Asia/Tokyo"];
+
+fn iso_of(local_s: i64) -> Option<IsoDateTime> {
+    let day = local_s.div_euclid(86_400); let t = local_s.rem_euclid(86_400);
+    let (y, m, d) = oracle::civil_from_days(day);
+    let mut date = temporal_rs::iso::IsoDate::default(); date.year = y as i32; date.month = m as u8; date.day = d as u8;
+    let mut time = temporal_rs::iso::IsoTime::default(); time.hour = (t / 3600) as u8; time.minute = (t / 60 % 60) as u8; time.second = (t % 60) as u8;
+    IsoDateTime::new(date, time).ok()
+}
+
+/// local date-time -> instants, checked against the provider's own instant -> offset answers (the direction unit tzif
+/// proves): every returned instant reads back as the local time, the list is ascending, and every instant t = L - o
+/// (o ranging over the offsets in force within a day of L) that reads back as L is in the list.
+fn local_case(p: &FsTzdbProvider, zone: &str, local_s: i64, fails: &mut Vec<Failure>) {
+    if local_s > 2_100_000_000 { return; } // footer region: known finding
+    let Some(iso) = iso_of(local_s) else { return };
+    let off = |s: i64| p.get_named_tz_offset_nanoseconds(zone, s as i128 * 1_000_000_000).ok().map(|r| r.offset);
+    let got = match catch_unwind(AssertUnwindSafe(|| p.get_named_tz_epoch_nanoseconds(zone, iso))) {
+        Ok(Ok(v)) => v.into_iter().map(|e| (e.as_i128() / 1_000_000_000) as i64).collect::<Vec<i64>>(),
+        Ok(Err(_)) => return,
+        Err(_) => { fails.push(Failure { what: "local -> instants panicked".into(), input: format!("{zone} local_s={local_s}"), expected: "a list".into(), observed: "panic".into() }); return }
+    };
+    let input = format!("{zone} local_s={local_s}");
+    for w in got.windows(2) { if w[0] >= w[1] { fails.push(Failure { what: "local -> instants: not ascending".into(), input: input.clone(), expected: "ascending instants".into(), observed: format!("{got:?}") }); } }
+    for t in &got { if let Some(o) = off(*t) { if *t + o != local_s { fails.push(Failure { what: "local -> instants: candidate does not read back".into(), input: input.clone(), expected: format!("{local_s}"), observed: format!("t={t} offset={o}") }); } } }
+    let mut offsets: Vec<i64> = Vec::new();
+    for dt in [-90_000i64, -50_000, -20_000, 0, 20_000, 50_000, 90_000] { if let Some(o) = off(local_s + dt) { if !offsets.contains(&o) { offsets.push(o); } } }
+    let mut want: Vec<i64> = offsets.iter().map(|o| local_s - o).filter(|t| off(*t).map(|o| *t + o == local_s).unwrap_or(false)).collect();
+    want.sort(); want.dedup();
+    let mut sorted = got.clone(); sorted.sort();
+    if sorted != want { fails.push(Failure { what: "local -> instants: wrong set".into(), input, expected: format!("{want:?}"), observed: format!("{got:?}") }); }
+}
 
 /// self-consistency of the bundled provider: the offset reported for an instant is the offset in force from the
 /// transition it names (so at the transition second itself the NEW offset applies), the offset is constant between the
@@ -17,10 +51,10 @@ pub fn search(rng: &mut Rng, budget: u64, fails: &mut Vec<Failure>) {
         let q = |s: i64| catch_unwind(AssertUnwindSafe(|| p.get_named_tz_offset_nanoseconds(zone, s as i128 * 1_000_000_000)));
         let r = match q(t_s) { Ok(Ok(r)) => r, Ok(Err(_)) => continue, Err(_) => { fails.push(Failure { what: "offset lookup panicked".into(), input: format!("{zone} epoch_s={t_s}"), expected: "offset".into(), observed: "panic".into() }); continue } };
         if let Some(te) = r.transition_epoch {
-            // Known finding (known_findings.json): beyond the last explicit transition the POSIX footer is resolved on UTC
-            // calendar days, so for zones far from UTC (e.g. Pacific/Chatham) the switch is placed at the wrong instant.
-            // That class is excluded so other violations stay visible.
-            let footer_far = te > 2_140_000_000 && !matches!(zone, "America/New_York" | "Europe/London" | "America/St_Johns" | "UTC");
+            // Known finding (known_findings.json): beyond the last explicit transition the POSIX footer places the rule-based
+            // switches at the wrong instant (UTC calendar days for zones far from UTC; the week/weekday comparison around each
+            // switch for all zones).  That region is excluded so other violations stay visible.
+            let footer_far = te > 2_140_000_000;
             if te <= t_s && !footer_far {
                 // at the transition second the new offset is in force
                 match q(te) {
@@ -33,6 +67,9 @@ pub fn search(rng: &mut Rng, budget: u64, fails: &mut Vec<Failure>) {
                 if let Ok(Ok(m)) = q(mid) { if m.offset != r.offset { fails.push(Failure { what: "offset between a transition and the queried instant".into(), input: format!("{zone} epoch_s={mid}"), expected: format!("{}", r.offset), observed: format!("{}", m.offset) }); } }
             }
         }
+        // local -> instants around the transition this answer names, and at the queried time
+        if let Some(te) = r.transition_epoch { for d in [-3700i64, -1800, -1, 0, 1, 1799, 1800, 3599, 3600, 3601, 7200] { local_case(&p, zone, te + r.offset + d, fails); } }
+        local_case(&p, zone, t_s, fails);
         // history independence: ask again
         if let Ok(Ok(r2)) = q(t_s) { if r2.offset != r.offset { fails.push(Failure { what: "answer depends on earlier queries".into(), input: format!("{zone} epoch_s={t_s}"), expected: format!("{}", r.offset), observed: format!("{}", r2.offset) }); } }
         if fails.len() >= 5 { return; }
